@@ -1,4 +1,4 @@
-import Nstd.Path.ScanBase
+import Nstd.Path.ScanSimp
 /-
   Property C19, tie by translation: the bodies of the path scanners of the CURRENT src/File.cpp, translated by
   tools/gen_path.py into Nstd/Generated/PathScan.lean, compute the functions of the hand-written model
@@ -132,23 +132,26 @@ theorem isAbsolutePath_translated (path : Bytes) (fuel : Nat) :
     rw [h4, h5]
     simp
 
-/-- all strings of length ≤ n over {a, '.', '/', '\\'} -/
-def smallStrings : Nat → List Bytes
-  | 0 => [[]]
-  | n + 1 => [] :: ((smallStrings n).flatMap fun s => [97 :: s, 46 :: s, 47 :: s, 92 :: s])
-
-/-
-OPEN: `∀ path fuel, 2 * path.length + 3 ≤ fuel → PathScan.simplifyPath fuel path = some (simplifyPath path)`.
-The body of File::simplifyPath IS translated on every run (outer `for(;;)`, the two skipping `while` loops, the
-look-back loop with `goto cont` / `break`), but the equality with the model's `chunks`/`sstep` fold is not proved; what is
-checked by the kernel on every build is the bounded statement below (a TEST of the translation, not a theorem over all
-strings).  When the translator does not understand the current body it says so (evidence: `translated`), the model function
-stands in and the statement below is void; simplifyPath is then tied by the correspondence run only.
--/
-/-- bounded check of the translated File::simplifyPath: on all 341 strings of length ≤ 4 over {a, '.', '/', '\\'} the
-    translated body computes the model function -/
-theorem simplifyPath_translated_small :
-    (smallStrings 4).all (fun p => Nstd.Generated.PathScan.simplifyPath 10 p == some (Nstd.Path.simplifyPath p)) = true := by
-  decide +kernel
+/-- the translated body of File::simplifyPath (the component loop with its two skipping loops, the look-back loop of the
+    `..` branch with `goto cont` / `break`, the two appends, the final root repair) computes the model function: the fold of
+    `sstep` over `chunks` — for every string and every fuel ≥ length + 1 -/
+theorem simplifyPath_translated (path : Bytes) (fuel : Nat) (hf : path.length + 1 ≤ fuel) :
+    Nstd.Generated.PathScan.simplifyPath fuel path = some (Nstd.Path.simplifyPath path) := by
+  unfold Nstd.Generated.PathScan.simplifyPath Nstd.Path.simplifyPath
+  have hab : (decide (cAt path 0 = 47) || decide (cAt path 0 = 92)) = startsWithSlash path := by
+    rw [sep_test']
+    cases path with
+    | nil => simp [cAt, startsWithSlash, isSep]
+    | cons c t => simp [cAt, startsWithSlash]
+  have hin : inb path 0 = true := by simp [inb]
+  obtain ⟨e', ch', cl', d2', p', s', h⟩ := simp_loop1 fuel path (startsWithSlash path) hf path.length path (Nat.le_refl _)
+    [] [] rfl (by simp) 0 0 0 0 0 0 [] fuel hf
+  simp only [List.length_nil, Int.natCast_zero] at h
+  simp only [hin, hab, Int.zero_add]
+  bool_norm
+  rw [h]
+  generalize List.foldl (sstep (startsWithSlash path)) [] (chunks path) = Rf
+  generalize startsWithSlash path = ab
+  cases Rf <;> cases ab <;> simp
 
 end Nstd.Path.Scan
